@@ -1267,6 +1267,10 @@ class Interp(object):
         b = self.lib.builtin(node.id)
         if b is not None:
             return b
+        import builtins as _bi
+        if hasattr(_bi, node.id):
+            # a real Python builtin that the semantics table does not cover: unknown, not a NameError of the program
+            raise Unsupported('builtin %s is not modelled' % node.id, node)
         raise Raised('NameError', node.id, self.loc(node))
 
     def wrap_resolved(self, r, node):
@@ -1313,6 +1317,8 @@ class Interp(object):
                     sub = m.name + '.' + name
                     if sub in self.prog.modules:
                         return Obj('module', {'module': self.prog.modules[sub]})
+                    if name.startswith('__'):
+                        raise Unsupported('module attribute %s is not modelled' % name, node)
                     raise Raised('AttributeError', name, self.loc(node))
                 return self.wrap_resolved(r, node)
             if name in o.attrs:
@@ -1493,11 +1499,15 @@ class Interp(object):
                 m = self.find_method(a, '__div__')
                 if m is not None:
                     return self.call(m, [b], {}, node)
+            if not isinstance(a.cls, ClassInfo):
+                raise Unsupported('operator %s on library object %s is not modelled' % (op, a.clsname), node)
             raise Raised('TypeError', 'unsupported operand %s for %s' % (op, a.clsname), self.loc(node))
         if isinstance(b, Obj):
             m = self.find_method(b, self._ROPS.get(op, '?'))
             if m is not None:
                 return self.call(m, [a], {}, node)
+            if not isinstance(b.cls, ClassInfo):
+                raise Unsupported('reflected operator %s on library object %s is not modelled' % (op, b.clsname), node)
             raise Raised('TypeError', 'unsupported operand %s for %s (reflected)' % (op, b.clsname),
                          self.loc(node))
         if isinstance(a, Index) or isinstance(b, Index):
@@ -1769,6 +1779,8 @@ class Interp(object):
         if isinstance(o, Obj):
             m = self.find_method(o, '__getitem__')
             if m is None:
+                if not isinstance(o.cls, ClassInfo):
+                    raise Unsupported('subscript of library object %s is not modelled' % o.clsname, node)
                 raise Raised('TypeError', '%s is not subscriptable' % o.clsname, self.loc(node))
             return self.call(m, [self.index_to_value(idx)], {}, node)
         if isinstance(o, Seq):
@@ -1824,6 +1836,8 @@ class Interp(object):
         if isinstance(o, Obj):
             m = self.find_method(o, '__setitem__')
             if m is None:
+                if not isinstance(o.cls, ClassInfo):
+                    raise Unsupported('item assignment on library object %s is not modelled' % o.clsname, node)
                 raise Raised('TypeError', '%s does not support item assignment' % o.clsname, self.loc(node))
             self.call(m, [self.index_to_value(idx), v], {}, node)
             return
